@@ -138,9 +138,9 @@ pub fn boundary_counters(hts: &[u32]) -> Vec<u64> {
 
 fn fault_cb(rng: &mut Rng, crashy: bool) -> Cb {
     if crashy {
-        *rng.pick(&[Cb::Reject, Cb::CrashBeforeDurable, Cb::CrashAfterDurable, Cb::CrashAfterReturn])
+        *rng.pick(&[Cb::Reject, Cb::RejectOnce, Cb::CrashBeforeDurable, Cb::CrashAfterDurable, Cb::CrashAfterReturn])
     } else {
-        Cb::Reject
+        *rng.pick(&[Cb::Reject, Cb::Reject, Cb::RejectOnce])
     }
 }
 
@@ -242,7 +242,7 @@ fn callback(_ctx: &GenCtx, rng: &mut Rng, run: u64) -> Option<Plan> {
     let shapes: &[&[u32]] = if H2_KNOWN { CALLBACK_SHAPES } else { CALLBACK_SHAPES_NOHOOK };
     let ws = [1u32, 2, 4, 8];
     let hashes = [HashId::Sha256_128, HashId::M_Shake256_128];
-    let cbs = [Cb::Accept, Cb::Reject, Cb::CrashBeforeDurable, Cb::CrashAfterDurable];
+    let cbs = [Cb::Accept, Cb::Reject, Cb::CrashBeforeDurable, Cb::CrashAfterDurable, Cb::RejectOnce];
     let auxk = 4u64; // none, fresh zero, valid, corrupted
     let apis = [Api::Fn, Api::ObjAux];
     let dims = [shapes.len() as u64, ws.len() as u64, hashes.len() as u64, cbs.len() as u64, auxk, apis.len() as u64];
@@ -315,7 +315,7 @@ fn callback(_ctx: &GenCtx, rng: &mut Rng, run: u64) -> Option<Plan> {
 
 pub fn callback_space_size() -> u64 {
     let shapes = if H2_KNOWN { CALLBACK_SHAPES.len() } else { CALLBACK_SHAPES_NOHOOK.len() } as u64;
-    shapes * 4 * 2 * 4 * 4 * 2
+    shapes * 4 * 2 * 5 * 4 * 2
 }
 
 #[allow(dead_code)]
